@@ -60,9 +60,16 @@ def run(rep, tier):
     os.environ["VERIF_C10_BUCKETS"] = nb
     res = xh.run_targets(targets, timeout=t, env_extra={"VERIF_C10_BUCKETS": nb})
     n_seeds = 24 if tier == "quick" else 64
+    xp = rep.coverage.setdefault("crosshair_paths", {"conditions": 0, "explored": 0, "confirmed": 0, "by_condition": {}})
     for r in res:
         fn = r.target.rsplit(".", 1)[-1]
         rep.solver_s += r.wall
+        xp["conditions"] += 1
+        xp["explored"] += r.paths
+        xp["confirmed"] += 0 if fn.startswith("twin_") else r.paths_confirmed
+        xp["by_condition"][fn] = [r.paths, r.paths_confirmed]
+        for k, n in r.hits.items():
+            rep.violation({"harness_known": k}, {"module": r.target.rsplit(".", 1)[0], "target": r.target, "hits": n}, f"{fn}: {n} explored paths deviate in the way classified as {k}")
         if fn.startswith("twin_"):
             if r.status != "counterexample":
                 rep.harness_error(f"reachability twin {fn} not violated ({r.status})")
